@@ -220,11 +220,11 @@ func refEval(src string) (aval, error) {
 // ---- generator ----
 
 type exprShape struct {
-	mixed     bool // both precedence levels
-	chain     int  // longest chain of - or / at one level
-	tokens    int
-	divZero   bool
-	maxDepth  int
+	mixed    bool // both precedence levels
+	chain    int  // longest chain of - or / at one level
+	tokens   int
+	divZero  bool
+	maxDepth int
 }
 
 // zeroFree makes genExpr avoid literal zeros (used for long chains, which would otherwise
